@@ -128,13 +128,22 @@ fn cmd_hist(m: &HashMap<String, String>) -> i32 {
     let mut chunk = 0u64;
     let mut run_no = 0u64;
     let mut seeds: Vec<u64> = (seed0..seed0 + runs).collect();
-    let fixed: Option<hist::Replay> = replay_file.map(|p| {
-        let r: hist::Replay =
-            serde_json::from_str(&std::fs::read_to_string(&p).expect("replay file")).unwrap();
-        r
-    });
-    if let Some(r) = &fixed {
-        seeds = vec![r.cfg.seed];
+    // --replay <file>: one recorded / generated history; --replay-list <file>: one per line
+    let mut fixed_list: Vec<hist::Replay> = vec![];
+    if let Some(p) = replay_file {
+        fixed_list.push(
+            serde_json::from_str(&std::fs::read_to_string(&p).expect("replay file")).unwrap(),
+        );
+    }
+    if let Some(p) = m.get("replay-list") {
+        for line in std::fs::read_to_string(p).expect("replay list").lines() {
+            if !line.trim().is_empty() {
+                fixed_list.push(serde_json::from_str(line).expect("replay line"));
+            }
+        }
+    }
+    if !fixed_list.is_empty() {
+        seeds = fixed_list.iter().map(|r| r.cfg.seed).collect();
     }
     let mut idx = 0;
     while idx < seeds.len() {
@@ -145,14 +154,15 @@ fn cmd_hist(m: &HashMap<String, String>) -> i32 {
         let mut all_lines = vec![];
         while idx < seeds.len() && in_file < per_file {
             let seed = seeds[idx];
+            let fixed: Option<&hist::Replay> = fixed_list.get(idx);
             idx += 1;
             in_file += 1;
             run_no += 1;
-            let cfg = match &fixed {
+            let cfg = match fixed {
                 Some(r) => r.cfg.clone(),
                 None => hist_cfg_for(seed, m),
             };
-            let u = Arc::new(match &fixed {
+            let u = Arc::new(match fixed {
                 Some(r) => Universe::from_keys(r.keys.clone()),
                 None => {
                     let mut rng = StdRng::seed_from_u64(seed ^ 0xabcdef);
@@ -199,7 +209,7 @@ fn cmd_hist(m: &HashMap<String, String>) -> i32 {
                     std::process::exit(3);
                 }),
             );
-            let outcome = hist::run_hist(&cfg, fixed.as_ref(), &s, &u, &wd, run_no);
+            let outcome = hist::run_hist(&cfg, fixed, &s, &u, &wd, run_no);
             wd.stop();
             let rpath = out.join(format!("replay_{}.json", cfg.seed));
             std::fs::write(&rpath, serde_json::to_string(&outcome.replay).unwrap()).unwrap();
